@@ -37,6 +37,7 @@ import (
 	"pgregory.net/rapid"
 
 	"verif/harness/internal/ev"
+	"verif/harness/internal/loglevel"
 )
 
 func init() { zerolog.SetGlobalLevel(zerolog.Disabled) }
@@ -702,6 +703,9 @@ func TestFlowFilterRegistered(t *testing.T) {
 			seen[key] = true
 			specs = append(specs, s)
 		}
+		level := loglevel.Gen().Draw(t, "log level")
+		r.Class("log level " + level)
+		defer loglevel.Set(level)()
 		r.Case()
 		tree := streamfilter.NewFilterTree()
 		flows := []*stubFlow{}
@@ -815,6 +819,9 @@ func TestPolicyEndpointRegistered(t *testing.T) {
 			eps = append(eps, e)
 		}
 		global := rapid.IntRange(0, 19).Draw(t, "global") == 0
+		level := loglevel.Gen().Draw(t, "log level")
+		r.Class("log level " + level)
+		defer loglevel.Set(level)()
 		r.Case()
 		pc := &sharedConfig.PoliciesConfig{}
 		for i, e := range eps {
